@@ -30,9 +30,9 @@ PROPS = {
                 rule="one flipped payload bit per preprocessing message (18 phases x occurrence x recipients x n), commit-before-reveal under seeded schedules, challenge predictor from wire openings vs probes; distinct by (n, phase, occurrence) / schedule"),
     "C05": dict(modules=["PolytuneModel.Thm.C05", "PolytuneModel.Thm.C05msgs"], theorems=["PolytuneModel.OnlineMsgs.C05_out_shares_recipients", "PolytuneModel.OnlineMsgs.C05_lambda_recipients", "PolytuneModel.OnlineMsgs.C05_slots_are_output_regs", "PolytuneModel.C05_non_output_silent", "PolytuneModel.C05_output_party_messages"], drive="C09", also=["C01m"], cases=dict(quick=40, thorough=400),
                 rule="recorded messages per ordered pair vs model pattern; nothing to a non-output party after input processing; distinct by (circuit, p_eval, p_out)"),
-    "C06": dict(modules=["PolytuneModel.Thm.C06C07"], theorems=["PolytuneModel.C06_mask_bijective", "PolytuneModel.C06_balanced_count"], drive="C06", only="C06", cases=dict(quick=400, thorough=4000),
+    "C06": dict(modules=["PolytuneModel.Thm.C06C07", "PolytuneModel.Thm.C06abit"], theorems=["PolytuneModel.C06_check_blinded", "PolytuneModel.C06_cex_unblinded", "PolytuneModel.C06_mask_bijective", "PolytuneModel.C06_balanced_count"], drive="C06", only="C06", cases=dict(quick=400, thorough=4000),
                 rule="repeated honest executions with taps; balance of revealed^others for input 0 and 1 (6 sigma), fresh delta and mask vector per party and run, 128-bit canary; distinct by run"),
-    "C07": dict(modules=["PolytuneModel.Thm.C06C07"], theorems=["PolytuneModel.C07_mac_view_independent", "PolytuneModel.C07_ashare_opening_independent", "PolytuneModel.C07_cex_ashare_offset", "PolytuneModel.C07_peers_can_compute"], drive="C07", also=["C07m"], only="C07", cases=dict(quick=100, thorough=1000),
+    "C07": dict(modules=["PolytuneModel.Thm.C06C07", "PolytuneModel.Thm.C07laand"], theorems=["PolytuneModel.C07_cex_laand_e_lie", "PolytuneModel.C07_mac_view_independent", "PolytuneModel.C07_ashare_opening_independent", "PolytuneModel.C07_cex_ashare_offset", "PolytuneModel.C07_peers_can_compute"], drive="C07", also=["C07m"], only="C07", cases=dict(quick=100, thorough=1000),
                 rule="global key (tap) searched in all sent bytes (both byte orders) and as XOR of two aligned 128-bit fields; distinct by run"),
     "C08": dict(modules=["PolytuneModel.Thm.C08", "PolytuneModel.Thm.Sites", "PolytuneModel.Thm.C08masked"], theorems=["PolytuneModel.Masked.C08_masked_no_panic", "PolytuneModel.Masked.C08_cex_masked_extra_some", "PolytuneModel.Masked.merge_inRange", "PolytuneModel.C08_length_guards_present", "PolytuneModel.decVec_bounded", "PolytuneModel.decN_length", "PolytuneModel.C08_ashare_no_panic", "PolytuneModel.C08_dvalue_no_panic", "PolytuneModel.C08_cex_ashare_dm_short", "PolytuneModel.C08_cex_dvalue_short"], drive="C08", cases=dict(quick=150, thorough=1),
                 rule="every adversary message index x 8 byte-level classes (sampled in quick), structure-aware classes on nested vectors, crash after k-th message; oracle: Ok or Err, no panic, no hang, no allocation > 64x bytes + 1 MiB; distinct by (victim role, phase, class, outcome)"),
